@@ -44,17 +44,37 @@ ANS_DRIVE_QUICK = [(8, 16, "1,2,3,4,5,6,7,8"), (2, 4, "1,2"), (3, 6, "1,2,3"), (
 ANS_DRIVE_THOROUGH = ANS_DRIVE_QUICK + [(2, 6, "1,2"), (4, 8, "1,2,3,4"), (4, 12, "1,2,3,4"), (32, 128, "1,16,24,32"), (16, 128, "1,8,16"), (8, 64, "1,4,8"), (2, 8, "1,2")]
 
 
+def big_job(ctx, module, base, w, s, what, max_events=None):
+    """V3: re-encodes the exact trace `base`.exact.ndjson as limb sequences (spec/Big.tla) and returns the validation job against
+    the limb-arithmetic specification `module` (TraceBigAns / TraceBigRange / TraceBigChain).  Limb width: 12 bits at the real
+    widths; 3 bits for states of at most 16 bits, so that the traces which TraceAns/TraceRange validate with TLC's own integers
+    are validated a second time through multi-limb arithmetic."""
+    lb = 12 if s > 16 else 3
+    if ctx.tier != "thorough" and s > 64:
+        max_events = min(max_events or 800, 800 if module == "TraceBigAns" else 500)      # 128-bit states: 128-step long divisions
+    n = core.limbify(base + ".exact.ndjson", base + ".big.ndjson", lb, max_events)
+    if s >= 32:
+        ctx.classes["big_trace_events_real_presets"] = ctx.classes.get("big_trace_events_real_presets", 0) + n
+    return dict(module=module, trace=base + ".big.ndjson", constants={"W": w, "S": s, "LB": lb}, invariants=["StateInv"], what=what, timeout=1500)
+
+
 def ans_traces(ctx, exact, abstract):
     """impl -> spec: random histories on the real AnsCoder at real and tiny widths; every recorded event is validated by TLC
     against TraceAns.tla (exact, every field) and/or AbsAns.tla (format-agnostic stack semantics)."""
     n = 9000 if ctx.tier == "thorough" else 4000
+    jobs = []
     for (w, s, precs) in (ANS_DRIVE_THOROUGH if ctx.tier == "thorough" else ANS_DRIVE_QUICK):
         base = os.path.join(ctx.work, "anstrace_%d_%d" % (w, s))
         ctx.vh("drive_ans", extra=["--w", str(w), "--s", str(s), "--precs", precs, "--n", str(n), "--trace", base])
         if exact and s <= 16:
-            ctx.validate_trace("TraceAns", base + ".exact.ndjson", {"W": w, "S": s}, invariants=["StateInv"], what="AnsCoder<%d,%d> exact" % (w, s))
+            jobs.append(dict(module="TraceAns", trace=base + ".exact.ndjson", constants={"W": w, "S": s}, invariants=["StateInv"], what="AnsCoder<%d,%d> exact" % (w, s)))
+        if exact:
+            jobs.append(big_job(ctx, "TraceBigAns", base, w, s, "AnsCoder<%d,%d> exact (limb arithmetic)" % (w, s)))
         if abstract:
-            ctx.validate_trace("AbsAns", base + ".abs.ndjson", invariants=["Report"], what="AnsCoder<%d,%d> abstract" % (w, s))
+            jobs.append(dict(module="AbsAns", trace=base + ".abs.ndjson", invariants=["Report"], what="AnsCoder<%d,%d> abstract" % (w, s)))
+    ctx.validate_traces(jobs)
+    if exact:
+        ctx.require("big_trace_events_real_presets", 1000)
     if abstract:
         ctx.require("trace_confirmations", 200)
         for c in ("debt_cancelled", "dec_below_base", "reimport", "from_binary", "export_binary_ok"):
@@ -132,11 +152,15 @@ def range_traces(ctx, exact):
     and tiny widths with inspections, sealing, decoding and seeking; the driver compares decoded symbols, TLC validates every
     recorded event exactly against TraceRange.tla where the state fits TLC's integers (S <= 16)."""
     n = 30000 if ctx.tier == "thorough" else 5000
+    jobs = []
     for (w, s, precs) in (RANGE_DRIVE_THOROUGH if ctx.tier == "thorough" else RANGE_DRIVE_QUICK):
         base = os.path.join(ctx.work, "rangetrace_%d_%d" % (w, s))
         ctx.vh("drive_range", extra=["--w", str(w), "--s", str(s), "--precs", precs, "--n", str(n), "--trace", base])
         if exact and s <= 16:
-            ctx.validate_trace("TraceRange", base + ".exact.ndjson", {"W": w, "S": s}, invariants=["StateInv"], what="RangeEncoder/Decoder<%d,%d> exact" % (w, s))
+            jobs.append(dict(module="TraceRange", trace=base + ".exact.ndjson", constants={"W": w, "S": s}, invariants=["StateInv"], what="RangeEncoder/Decoder<%d,%d> exact" % (w, s)))
+        if exact:
+            jobs.append(big_job(ctx, "TraceBigRange", base, w, s, "RangeEncoder/Decoder<%d,%d> exact (limb arithmetic)" % (w, s), max_events=None if ctx.tier == "thorough" else 2500))
+    ctx.validate_traces(jobs)
     for c in ("inverted", "inverted_2plus", "seek", "inspect"):
         ctx.require(c)
 
@@ -151,11 +175,15 @@ def range_steered(ctx, exact):
     symbol whose interval contains the wrap point), resolved by a later symbol with / without a carry or sealed directly, with
     and without temporary views in the middle; views taken while the range is minimal. The driver decodes every message and
     compares num_words with the view; TLC validates the u8/u16 and tiny-width traces exactly (TraceRange.tla)."""
+    jobs = []
     for (w, s, p) in (STEER_THOROUGH if ctx.tier == "thorough" else STEER_QUICK):
         base = os.path.join(ctx.work, "steer_%d_%d" % (w, s))
         ctx.vh("drive_range_steered", extra=["--w", str(w), "--s", str(s), "--p", str(p), "--trace", base, "--long"])
         if exact and s <= 16:
-            ctx.validate_trace("TraceRange", base + ".exact.ndjson", {"W": w, "S": s}, invariants=["StateInv"], what="steered RangeEncoder<%d,%d> exact" % (w, s))
+            jobs.append(dict(module="TraceRange", trace=base + ".exact.ndjson", constants={"W": w, "S": s}, invariants=["StateInv"], what="steered RangeEncoder<%d,%d> exact" % (w, s)))
+        if exact and s > 16:
+            jobs.append(big_job(ctx, "TraceBigRange", base, w, s, "steered RangeEncoder<%d,%d> exact (limb arithmetic)" % (w, s), max_events=None if ctx.tier == "thorough" else 2500))
+    ctx.validate_traces(jobs)
     for c in ("run_of_9_or_more", "run_of_65_or_more", "run_of_256_or_more", "peek_while_holding_back", "narrow_range", "seek_to_snapshot_with_256_held_back"):
         ctx.require(c)
 
@@ -460,7 +488,7 @@ def c14(ctx):
 
 def symbol_cases(ctx, kind, maxlen, maxw, mode):
     cases = os.path.join(ctx.work, "%s_%d_%d.ndjson" % (kind, maxlen, maxw))
-    st = ctx.tlc("MC_Symbol", {"Kind": '"%s"' % kind, "MaxLen": maxlen, "MaxW": maxw}, invariants=["HuffmanLaws", "GolombLaws", "GolombPrefixFree", "Emit"],
+    st = ctx.tlc("MC_Symbol", {"Kind": '"%s"' % kind, "MaxLen": maxlen, "MaxW": maxw}, invariants=["HuffmanLaws", "HuffmanF32Laws", "GolombLaws", "GolombPrefixFree", "Emit"],
                  emit_to=cases, label="MC_Symbol_%s" % kind)
     if st["spec_violation"]:
         ctx.violation("specification law %s fails for %s:\n%s" % (st["spec_violation"], kind, st.get("counterexample", "")), {"k": "spec", "module": "MC_Symbol"})
@@ -498,6 +526,9 @@ def c15(ctx):
         symbol_cases(ctx, "huffman", 5, 4, "c15")
     for c in ("zero_weight", "tie", "single_symbol"):
         ctx.require(c)
+    # float constructors on integer-valued f32 weights whose sums f32 addition rounds (spec: round-to-nearest-even at 24 bits)
+    symbol_cases(ctx, "huffman_f32", 5 if ctx.tier == "thorough" else 4, 0, "c15")
+    ctx.require("f32_rounding_changes_the_code")
     # impl -> spec: large alphabets (weights beyond TLC's integers, code words longer than 64 bits)
     trace = os.path.join(ctx.work, "huffman.ndjson")
     ctx.vh("drive_huffman", extra=["--trace", trace])
